@@ -73,9 +73,13 @@ class C17(Prop):
                     route = "seg"
                 yield {"k": "str", "pieces": pieces, "route": route}
             elif r < 0.9:
-                a = pl.render(pl.rand_ast(rng, ncmd=rng.choice([1, 2, 3, 4])), rng)
+                a = pl.render(pl.rand_ast(rng, ncmd=rng.choice([1, 2, 3, 4])), rng) if rng.random() < 0.8 else ""
                 b = pl.render(pl.rand_ast(rng, ncmd=rng.choice([1, 2, 3]), first=rng.choice("Mm")), rng)
-                yield {"k": "pp", "a": a, "b": b, "times": rng.choice([1, 2, 2]), "route": rng.choice(["add", "iadd"]),
+                if rng.random() < 0.35:
+                    # several subpaths, the last one closed: the close must keep returning to its own subpath's start
+                    b = b + " Z " + pl.render(pl.rand_ast(rng, ncmd=rng.choice([2, 3]), first=rng.choice("Mm")), rng) + rng.choice([" z", " Z"])
+                route = rng.choice(["add", "iadd", "radd"])
+                yield {"k": "pp", "a": a, "b": b, "times": 1 if route == "radd" else rng.choice([1, 2, 2]), "route": route,
                        "mutate": rng.choice([None, None, "reify", "edit"])}
             else:
                 a = pl.render(pl.rand_ast(rng, ncmd=rng.choice([1, 2, 3, 4])), rng)
@@ -135,6 +139,8 @@ class C17(Prop):
                 for _ in range(case["times"]):
                     if case["route"] == "add":
                         p = p + pb
+                    elif case["route"] == "radd":
+                        p = case["a"] + pb          # str + Path: the string is the left operand
                     else:
                         p += pb
                 got = pl.observe_path(p)
